@@ -281,6 +281,14 @@ class Body:
         def pred(o):
             return o[0] == "discr" and o[1][0] == "call" and o[1][4] == call_bb
         r = self.switch_on(pred)
+        if len(r) > 1:
+            # drop elaboration re-tests the same discriminant later: take the test that dominates the others
+            first = [x for x in r if all(self.dominates(x[0], y[0]) for y in r)]
+            if len(first) != 1:
+                # exit paths that bypass the call re-test a drop flag: keep tests dominated by the call, earliest first
+                cand = [x for x in r if self.dominates(call_bb, x[0])]
+                first = [x for x in cand if all(y[0] in self.reach(x[0]) for y in cand)]
+            return first[0] if len(first) == 1 else None
         return r[0] if len(r) == 1 else None
 
     def try_of_call(self, call_bb):
